@@ -102,7 +102,7 @@ def shard_text(cases):
 
 
 def run_shards(shards, jobs=8, timeout=900):
-    """-> list of (ok, [(diag, step_ok_breaks)] per case, raw)"""
+    """-> list of (ok, [(diag, query_index_breaks, other_step_ok_breaks)] per case, raw)"""
     os.makedirs(vlib.GEN, exist_ok=True)
     paths = []
     for k, cs in enumerate(shards):
@@ -121,7 +121,7 @@ def run_shards(shards, jobs=8, timeout=900):
         m = re.search(r"R\s*=\s*\[(.*?)\]\s*:\s*list", flat)
         if not m:
             return (False, None, out[-3000:])
-        trip = [tuple(int(x) for x in t) for t in re.findall(r"\(\s*(\d+)\s*,\s*(\d+)\s*\)", m.group(1))]
+        trip = [tuple(int(x) for x in t) for t in re.findall(r"\(\s*(\d+)\s*,\s*(\d+)\s*,\s*(\d+)\s*\)", m.group(1))]
         return (True, trip, "")
 
     with ThreadPoolExecutor(max_workers=jobs) as ex:
@@ -134,10 +134,10 @@ def signature(f):
     return {"kind": f["kind"], "cause": f["cause"]}
 
 
-def replay_json(binp, workdir, steps, cache, drain=True):
+def replay_json(binp, workdir, steps, cache, drain=True, idx0=False):
     os.makedirs(workdir, exist_ok=True)
     p = os.path.join(workdir, "shrink.json")
-    json.dump({"steps": steps, "cache": cache, "drain": drain}, open(p, "w"))
+    json.dump({"steps": steps, "cache": cache, "drain": drain, "idx0": bool(idx0)}, open(p, "w"))
     rc, out = vlib.sh([binp, "-replay", p, "-json"], timeout=120)
     if rc != 0:
         return None
@@ -160,7 +160,7 @@ def shrink(binp, workdir, case, fail, budget=150):
     steps = inputs_only([s for s in case["steps"]])
     # the drain is appended by the harness again: cut the schedule at the failing step when possible
     def fails(st):
-        c = replay_json(binp, workdir, st, case["cache"])
+        c = replay_json(binp, workdir, st, case["cache"], idx0=case.get("idx0", False))
         return c is not None and any((f["kind"], f["cause"]) == want for f in c.get("fails") or [])
     tries = 0
     cut = steps[:fail["step"] + 1] if 0 <= fail["step"] < len(steps) else steps
@@ -207,17 +207,20 @@ def run(ctx):
     per = 100
     shards = [cases[i:i + per] for i in range(0, len(cases), per)]
     res = run_shards(shards)
-    mism, breaks_step, break_cases = [], 0, []
+    mism, breaks_step, breaks_raft, break_cases, raft_cases = [], 0, 0, [], []
     for cs, (okk, trip, raw) in zip(shards, res):
         if not okk or len(trip) != len(cs):
             ctx.violation({"kind": "case-file-failed", "log": raw}, found_input=False)
             continue
-        for c, (d, a) in zip(cs, trip):
+        for c, (d, a, b) in zip(cs, trip):
             if d:
                 mism.append((c, d - 1))
             breaks_step += a
+            breaks_raft += b
             if a:
                 break_cases.append((c, a))
+            if b and not c.get("idx0"):
+                raft_cases.append(c)
 
     # ---- direct oracle on the implementation
     known_counts = collections.Counter()
@@ -240,6 +243,11 @@ def run(ctx):
             new_fail.append((c, {"kind": "assumption-break", "cause": "query-index-behind-content", "step": -1, "c": -1,
                                  "msg": "the index a query reported does not cover a commit that touched its subject"}))
 
+    # Raft indexes not strictly increasing / above 1: only the corpus case that declares it (idx0) may do that
+    for c in raft_cases:
+        new_fail.append((c, {"kind": "assumption-break", "cause": "raft-index", "step": -1, "c": -1,
+                             "msg": "a commit index was not above the previous one (or was 1)"}))
+
     seen = set()
     for c, f in new_fail:
         key = (f["kind"], f["cause"])
@@ -247,10 +255,10 @@ def run(ctx):
             continue
         seen.add(key)
         steps = shrink(binp, ctx.workdir, c, f) if f.get("step", -1) >= 0 or True else inputs_only(c["steps"])
-        rep = replay_json(binp, ctx.workdir, steps, c["cache"])
+        rep = replay_json(binp, ctx.workdir, steps, c["cache"], idx0=c.get("idx0", False))
         ctx.violation({"kind": "oracle", "signature": signature(f), "reason": f["msg"], "failing_step": f.get("step"),
                        "client": f.get("c"), "generator": c["gen"], "case_id": c["id"],
-                       "case": {"steps": steps, "cache": c["cache"], "drain": True},
+                       "case": {"steps": steps, "cache": c["cache"], "drain": True, "idx0": bool(c.get("idx0"))},
                        "shrunk_trace_failures": (rep or {}).get("fails"),
                        "replay_cmd": "build/bin/stream -replay <this file>"})
     if mism and not new_fail:
@@ -325,7 +333,7 @@ def run(ctx):
         "traces_validated_against_impl": len(cases) - len(mism),
         "steps_executed": nsteps,
         "model_mismatches": len(mism),
-        "assumption_breaks_observed": {"step_ok": breaks_step},
+        "assumption_breaks_observed": {"query_index": breaks_step, "raft_index_in_declared_floor_case": breaks_raft},
         "oracle_failures_known": dict(known_counts),
         "oracle_failures_unknown": len(new_fail),
         "generator_flavours": dict(gens),
